@@ -160,12 +160,28 @@ def metaVal (m : RMeta) : Val :=
 
 def optMeta (m : Option RMeta) : Val := vOpt (m.map metaVal)
 
-/-- Python `str(value)` of an extension value (strings inside lists are `repr`-ed with
-single quotes; valid for strings without quotes, backslashes or control characters) -/
+/-- Python `repr` of a `str`: single quotes unless the text has a `'` and no `"`; backslash,
+the chosen quote, tab / line feed / carriage return and the other control characters escaped
+(the texts are 7-bit: the codec's string domain) -/
+def hexDigit (n : Nat) : Nat := if n < 10 then 48 + n else 87 + n
+
+def pyReprStr (s : Str) : Str :=
+  let q : Nat := if s.contains 39 && !s.contains 34 then 34 else 39
+  let esc (c : Nat) : Str :=
+    if c = 92 then [92, 92]
+    else if c = q then [92, q]
+    else if c = 9 then [92, 116]
+    else if c = 10 then [92, 110]
+    else if c = 13 then [92, 114]
+    else if c < 32 || c = 127 then [92, 120, hexDigit (c / 16), hexDigit (c % 16)]
+    else [c]
+  q :: (s.map esc).flatten ++ [q]
+
+/-- Python `str(value)` of an extension value (strings inside lists are `repr`-ed) -/
 def pyRepr : XV → Str
   | .int i => intCodes i
   | .flt r => r
-  | .str s => 39 :: s ++ [39]
+  | .str s => pyReprStr s
   | .arr items => 91 :: pyItems items ++ [93]
   | .nil => []
   | .cons v r => pyRepr v
